@@ -70,6 +70,12 @@ type Script struct {
 	WithHandler bool      `json:"with_handler,omitempty"`
 	Race        bool      `json:"race,omitempty"` // stdio: valid answer racing the caller's cancellation
 	Costly      bool      `json:"costly,omitempty"`
+	// Expect is set by the same-id family (sameid.go): what the probe may return when a frame of the wrong kind
+	// bearing the probe's id was placed next to its well-formed answer. "valid": only the content of the
+	// well-formed answer; "valid-or-error": that content or an error; "valid-or-error-or-odd": also the content
+	// of the odd frame's own result member. "" = the general rules.
+	Expect    string `json:"expect,omitempty"`
+	NoHandler bool   `json:"no_handler,omitempty"` // no notification handler is registered on the client (any kind)
 }
 
 func (s *Script) label() string {
@@ -84,6 +90,9 @@ func (s *Script) dead() bool { return s.StreamClose || s.HandClose }
 // ---------------------------------------------------------------------------------------------
 
 func validAnswer(method string, pad bool) string {
+	if method != "tools/list" && method != "tools/call" {
+		return `{"jsonrpc":"2.0","id":@ID@,"result":` + resultBody(method, validMarker(method, "probe")) + `}`
+	}
 	if method == "tools/list" {
 		d := "d"
 		if pad {
@@ -98,9 +107,32 @@ func validAnswer(method string, pad bool) string {
 	return `{"jsonrpc":"2.0","id":@ID@,"result":{"content":[{"type":"text","text":"valid:probe"}` + extra + `]}}`
 }
 
+// probeMethods are the call types a probe can be. The list calls carry the marker in the (only) item's name,
+// the others in the text of the first content item.
+var probeMethods = []string{"tools/list", "tools/call", "prompts/list", "resources/list", "resources/read", "prompts/get"}
+
+func isListMethod(method string) bool { return strings.HasSuffix(method, "/list") }
+
+// validMarker is the marker of the well-formed answer to a call (name = tool / prompt name of the call).
+func validMarker(method, name string) string {
+	if isListMethod(method) {
+		return "valid"
+	}
+	return "valid:" + name
+}
+
 func resultBody(method, marker string) string {
-	if method == "tools/list" {
+	switch method {
+	case "tools/list":
 		return `{"tools":[{"name":"` + marker + `-tool","description":"d","inputSchema":{"type":"object"}}]}`
+	case "prompts/list":
+		return `{"prompts":[{"name":"` + marker + `-prompt","description":"d"}]}`
+	case "resources/list":
+		return `{"resources":[{"uri":"file:///c07/r","name":"` + marker + `-res","mimeType":"text/plain"}]}`
+	case "resources/read":
+		return `{"contents":[{"uri":"file:///c07/probe","mimeType":"text/plain","text":"` + marker + `"}]}`
+	case "prompts/get":
+		return `{"description":"d","messages":[{"role":"user","content":{"type":"text","text":"` + marker + `"}}]}`
 	}
 	return `{"content":[{"type":"text","text":"` + marker + `"}]}`
 }
@@ -1019,6 +1051,11 @@ func scriptsFor(kind string, n int, rngFor func(label string) *rand.Rand, thorou
 			out = append(out, s)
 		}
 		cycle++
+	}
+	// the same-id family comes on top of the n scripts (its size is fixed by the tier, not by n)
+	for _, s := range sameIDScripts(kind, rngFor, thorough) {
+		s.Idx = len(out)
+		out = append(out, s)
 	}
 	return out
 }
